@@ -353,6 +353,16 @@ def replay(v):
     m = {k: x for k, x in (v.get("model") or {}).items() if x is not None}
     mod = B if job.startswith("optical") else A
     with np.errstate(all="ignore"):
+        if "defined:" in ob:
+            # a definedness counterexample (e.g. a sentinel-layer entry reaching a division) shows at the limits: the
+            # zero-pressure / infinite-altitude entries, alone and as one entry of an otherwise ordinary batch, in both copies
+            for M_ in (A, B):
+                pb = np.asarray(M_.us_std_atm_pressure_from_altitude(np.array([1.0, np.inf, 30.0])), dtype=float)
+                zb_ = np.asarray(M_.us_std_atm_altitude_from_pressure(np.array([1000.0, 0.0, 5.0])), dtype=float)
+                p1, z1 = float(M_.us_std_atm_pressure_from_altitude(np.inf)), float(M_.us_std_atm_altitude_from_pressure(0.0))
+                if p1 != 0.0 or z1 != np.inf or pb[1] != 0.0 or not np.all(np.isfinite(pb)) or zb_[1] != np.inf or not np.all(np.isfinite(zb_[[0, 2]])):
+                    return {"reproduced": True, "key": "standard atmosphere: zero pressure and infinite altitude are not mapped onto each other",
+                            "detail": f"{M_.__name__}: P(inf) = {p1}, z(0) = {z1}, P([1, inf, 30] km) = {pb.tolist()}, z([1000, 0, 5] Pa) = {zb_.tolist()}"}
         if job.startswith("two copies"):
             if "p_of_z" in job:
                 xs = np.array([m.get("z", m.get("z0", 11.0)), m.get("z1", 47.0)])
@@ -401,9 +411,17 @@ def replay(v):
 
         R = float(const.earth_radius)
         Hb = [float(x) for x in np.asarray(mod.H_b)[1:-1]]
-        if "limits" in job or "zero pressure" in ob or "infinite altitude" in ob:
-            p_inf = float(mod.us_std_atm_pressure_from_altitude(np.inf))
-            z_0 = float(mod.us_std_atm_altitude_from_pressure(0.0))
+        if "limits" in job or "zero pressure" in ob or "infinite altitude" in ob or "defined:" in ob:
+            # (a definedness counterexample -- e.g. a sentinel-layer entry reaching a division -- shows at the limits:
+            # scalar and as one entry of an otherwise ordinary batch)
+            with np.errstate(all="ignore"):
+                p_inf = float(mod.us_std_atm_pressure_from_altitude(np.inf))
+                z_0 = float(mod.us_std_atm_altitude_from_pressure(0.0))
+                pb = np.asarray(mod.us_std_atm_pressure_from_altitude(np.array([1.0, np.inf, 30.0])), dtype=float)
+                zb_ = np.asarray(mod.us_std_atm_altitude_from_pressure(np.array([1000.0, 0.0, 5.0])), dtype=float)
+            if pb[1] != 0.0 or not np.all(np.isfinite(pb)) or zb_[1] != np.inf or not np.all(np.isfinite(zb_[[0, 2]])):
+                return {"reproduced": True, "key": "standard atmosphere: zero pressure / infinite altitude inside a batch are not mapped onto each other",
+                        "detail": f"P([1, inf, 30] km) = {pb.tolist()}, z([1000, 0, 5] Pa) = {zb_.tolist()}"}
             if p_inf != 0.0:
                 return {"reproduced": True, "key": "standard atmosphere: infinite altitude does not map to zero pressure", "detail": f"P(inf) = {p_inf}"}
             if z_0 != np.inf:
